@@ -120,6 +120,8 @@ type Outcome struct {
 	// Trivial marks executions the harness considers trivial (not counted in
 	// distinct_nontrivial).
 	Trivial bool
+	// More holds further violations found by the same execution.
+	More []Outcome
 }
 
 func hash64(s string) uint64 {
@@ -303,7 +305,13 @@ func (r *Report) Explore(cfg Config, body Body) *PartStats {
 			active++
 			mu.Unlock()
 
+			if shardN > 1 {
+				noteCurrent(cfg.Name, w.prefix)
+			}
 			x, out, crashed := runOne(body, w.prefix, seen)
+			if shardN > 1 {
+				noteCurrent("", nil)
+			}
 			own := owner(w.prefix)
 			counted := own == shardI || (own == -1 && shardI == 0) || shardN <= 1
 			var n int64
@@ -336,19 +344,26 @@ func (r *Report) Explore(cfg Config, body Body) *PartStats {
 					atomic.AddInt64(&nondet, 1)
 				}
 			}
-			if out.Violation != "" {
-				key := out.Key
+			for _, o := range append([]Outcome{out}, out.More...) {
+				if o.Violation == "" {
+					continue
+				}
+				key := o.Key
 				if key == "" {
-					key = out.Violation
+					key = o.Violation
 				}
 				mu.Lock()
 				first := !vioKeys[key]
 				vioKeys[key] = true
-				nk := len(vioKeys)
 				mu.Unlock()
 				if first {
-					r.addViolation(cfg.Name, key, out.Violation, x, crashed, body)
+					r.addViolation(cfg.Name, key, o.Violation, x, crashed, body)
 				}
+			}
+			if out.Violation != "" {
+				mu.Lock()
+				nk := len(vioKeys)
+				mu.Unlock()
 				if nk >= cfg.StopAfterViolations {
 					mu.Lock()
 					stop = true
